@@ -284,6 +284,8 @@ class Engine:
         self.solver_for_pruning = None
         self._const_cache = {}
         self.slice_cap = None
+        self.stat_states = 0    # symbolic states: (basic block, loop-unrolling context) instances executed
+        self.stat_edges = 0     # control-flow transitions followed between them (incl. returns)
         self.feature_model = {}
         self.valsets = {}
         self.lock_cells = {}
@@ -1293,10 +1295,12 @@ class FnRun:
             if g0 is False:
                 continue
             body, term = fn.blocks[bb]
+            E.stat_states += 1
             try:
                 for st in body:
                     self.statement(st, mem, guard)
                 outs = self.terminator(term, mem, guard)
+                E.stat_edges += len(outs)
             except Unsupported as e:
                 E.unsup(guard, '%s [%s bb%d]' % (e, fn.name, bb))
                 continue
